@@ -503,15 +503,19 @@ func (m *limitsMon) finish() {
 		simrt.Violate("C17", "balance.counters", "after the only torrent stopped: peers=%d reads active/pending=%d/%d writes active/pending=%d/%d", ss.Peers, ss.ReadsActive, ss.ReadsPending, ss.WritesActive, ss.WritesPending)
 	}
 	open := 0
+	var which []string
 	for _, p := range w.env.Net.Pairs() {
 		if s := m.sutSide(p); s >= 0 && !p.Closed(s) {
-			if oh := otherHost(p, s); oh != nil && (oh.Role == "peer" || oh.Role == "badhs" || oh.Role == "leecher" || oh.Role == "webseed") {
+			// (an idle keep-alive connection to a web seed may stay in the session's HTTP pool:
+			// that is a cache of the session, not a reservation of the torrent)
+			if oh := otherHost(p, s); oh != nil && (oh.Role == "peer" || oh.Role == "badhs" || oh.Role == "leecher") {
 				open++
+				which = append(which, fmt.Sprintf("#%d %s(%s) dialled_by_sut=%v opened=%v", p.ID, oh.Name, oh.Role, s == 0, p.OpenedAt))
 			}
 		}
 	}
 	if open > 0 {
-		simrt.Violate("C17", "balance.connections", "%d peer / web seed connections are still open on the SUT's side after the torrent stopped", open)
+		simrt.Violate("C17", "balance.connections", "%d peer connections are still open on the SUT's side after the torrent stopped: %v", open, which)
 	}
 	total := int(w.sut.Cfg.PortEnd) - int(w.sut.Cfg.PortBegin)
 	w.sut.In(func() { w.sut.Sess.RemoveTorrent("tt", false) })
